@@ -268,6 +268,41 @@ func Settle(base int, timeout time.Duration) bool {
 	return WaitFor(timeout, func() bool { runtime.Gosched(); return runtime.NumGoroutine() <= base })
 }
 
+// StableGoroutines waits until the goroutine count has stopped changing (three equal readings
+// 300 microseconds apart) and returns it; used to take a baseline after a node was created and
+// after the previous node's goroutines have gone.
+func StableGoroutines(timeout time.Duration) int {
+	deadline := time.Now().Add(timeout)
+	last, same := -1, 0
+	for time.Now().Before(deadline) {
+		runtime.Gosched()
+		n := runtime.NumGoroutine()
+		if n == last {
+			same++
+			if same >= 3 {
+				return n
+			}
+		} else {
+			last, same = n, 0
+		}
+		time.Sleep(300 * time.Microsecond)
+	}
+	return runtime.NumGoroutine()
+}
+
+// WaitGoroutinesAtMost waits until at most n goroutines exist (or the timeout expires).
+func WaitGoroutinesAtMost(n int, timeout time.Duration) bool {
+	deadline := time.Now().Add(timeout)
+	for time.Now().Before(deadline) {
+		runtime.Gosched()
+		if runtime.NumGoroutine() <= n {
+			return true
+		}
+		time.Sleep(200 * time.Microsecond)
+	}
+	return false
+}
+
 // Drain empties a buffered channel without blocking.
 func Drain(ch chan []byte) [][]byte {
 	var out [][]byte
